@@ -648,18 +648,33 @@ def oracle_consistent(result, flags):
 	if result['pre']:
 		return 'pre-false-error:consistent-schema', f'pre-expansion validation reports {result["pre"][:2]} on a consistent schema'
 	if result['post']:
-		messages = ' '.join(e[2] for e in result['post'])
-		if 'sort-key-in-template' in flags and 'unknown sort_key property' in messages:
-			return 'post-false-error:sort-key-in-named-inline-template', \
-				f'a sorted array inside a named-inline template: post-expansion validation reports {result["post"][:2]} on a consistent schema'
-		if 'sizeof-in-template' in flags and 'unknown sizeof property' in messages:
-			return 'post-false-error:sizeof-in-named-inline-template', \
-				f'a sizeof member inside a named-inline template: post-expansion validation reports {result["post"][:2]} on a consistent schema'
-		if 'nested-template-after-use' in flags:
-			return 'post-false-error:nested-named-inline-template-declared-after-use', \
-				f'a named-inline template containing a named inline, declared after its user, is not expanded: {result["post"][:2]} on a consistent schema'
-		return 'post-false-error:consistent-schema', f'post-expansion validation reports {result["post"][:2]} on a consistent schema'
+		return classify_post_false_errors(result['post'], flags), f'post-expansion validation reports {result["post"][:2]} on a consistent schema'
 	return None
+
+
+def classify_post_false_errors(errors, flags):
+	"""one stable signature per family of expansion-caused false errors; anything that is not entirely explained by the flagged
+	families keeps the generic signature (and so stays a violation)"""
+	import re
+	inline_prefixes = [f[len('ninline:'):] + '_' for f in flags if f.startswith('ninline:')]
+	nested_prefixes = [f[len('nested-prefix:'):] for f in flags if f.startswith('nested-prefix:')]
+	families = set()
+	for _, _, message in errors:
+		quoted = re.findall(r'"([^"]*)"', message)
+		if 'sort-key-in-template' in flags and message.startswith('reference to unknown sort_key property') \
+			and any(q.startswith(p) for q in quoted for p in inline_prefixes):
+			families.add('sort-key')
+		elif 'sizeof-in-template' in flags and message.startswith('reference to unknown sizeof property'):
+			families.add('sizeof')
+		elif nested_prefixes and any(p in q for q in quoted for p in nested_prefixes):
+			families.add('nested')
+		else:
+			return 'post-false-error:consistent-schema'
+	if 'sizeof' in families:
+		return 'post-false-error:sizeof-in-named-inline-template'      # repaired in /repo (a802ad69a): a regression is a violation
+	if 'sort-key' in families:
+		return 'post-false-error:sort-key-in-named-inline-template'
+	return 'post-false-error:nested-named-inline-template-declared-after-use'
 
 
 def names_member(fields, member):
@@ -703,11 +718,11 @@ PROBES = [
 	('using Al = uint16\n\nstruct Foo\n\tbar = inline Al\n', 'named-inline-of-alias', 'Foo', 'bar', []),
 	('enum En : uint8\n\tAA = 1\n\nstruct Foo\n\tbar = inline En\n', 'named-inline-of-enum', 'Foo', 'bar', []),
 	('struct El\n\tkk = uint8\n\ninline struct Tpl\n\t@sort_key(kk)\n\tarr = array(El, 4)\n\nstruct Foo\n\tbar = inline Tpl\n',
-		None, None, None, ['sort-key-in-template']),
+		None, None, None, ['sort-key-in-template', 'ninline:bar']),
 	('@is_size_implicit\nstruct Other\n\tbaz = uint8\n\ninline struct Tpl\n\tr1_size = sizeof(uint8, r1)\n\tr1 = Other\n\nstruct Foo\n\tbar = inline Tpl\n',
 		None, None, None, ['sizeof-in-template']),
 	('@size(bar_qq_r1)\nstruct Foo\n\tbar = inline Tpl\n\ninline struct Tpl\n\tqq = inline Tp0\n\ninline struct Tp0\n\tr1 = uint8\n',
-		None, None, None, ['nested-template-after-use']),
+		None, None, None, ['nested-template-after-use', 'ninline:bar', 'nested-prefix:bar_qq_']),
 ]
 
 
@@ -871,17 +886,23 @@ def _worker_run(texts):
 	return [_WORKER['impl'].run_text(text) for text in texts]
 
 
-def nested_template_after_use(ir):
-	"""a named-inline template that itself contains a named inline and is declared after one of its users"""
+def expansion_flags(ir):
+	"""names the oracle needs to recognise the two known families: every named-inline member, and the prefixes left unexpanded when a
+	named-inline template that itself contains a named inline is declared after one of its users"""
 	position = {d['name']: i for i, d in enumerate(ir)}
 	structs = {d['name']: d for d in ir if d['k'] == 'struct'}
+	flags = []
 	for decl in structs.values():
 		for member in decl['members']:
-			if member['form'] == 'ninline':
-				template = structs.get(member['type'][1])
-				if template and position[template['name']] > position[decl['name']] and any(m['form'] == 'ninline' for m in template['members']):
-					return True
-	return False
+			if member['form'] != 'ninline':
+				continue
+			flags.append(f'ninline:{member["name"]}')
+			template = structs.get(member['type'][1])
+			if template and position[template['name']] > position[decl['name']]:
+				flags += [f'nested-prefix:{member["name"]}_{m["name"]}_' for m in template['members'] if m['form'] == 'ninline']
+	if any(f.startswith('nested-prefix:') for f in flags):
+		flags.append('nested-template-after-use')
+	return sorted(set(flags))
 
 
 def _run_cases(check, impl):
@@ -913,8 +934,7 @@ def _run_cases(check, impl):
 	jobs = []
 	for index in range(count):
 		ir, flags = gen_schema(rng)
-		if nested_template_after_use(ir):
-			flags = flags + ['nested-template-after-use']
+		flags = flags + expansion_flags(ir)
 		items = [(f'schema{index}', schema_text(ir), None, flags)]
 		taken = {}
 		breaks = breaks_of(ir)
